@@ -20,6 +20,7 @@ def run(rep):
     b2w(rep, w)
     b7(rep, w)
     b3(rep, w)
+    b8(rep, w)
     import c04_narrow
     c04_narrow.b4(rep, w)
     b5(rep, w)
@@ -635,6 +636,52 @@ def b3(rep, w):
     pos = [bi for bi, t in ts.calls() if callee_name(t) == P + 'patch_offset_at']
     ok = len(pos) == 2 and all(emit.all_clean_paths_pass(ts, {b}) for b in pos)
     r.check(ok, 'try_statement patches both PushExcHandler operands', 'one of the two 0xffff operands of PushExcHandler is left unpatched on an error-free path', ts.loc())
+
+
+def b8(rep, w):
+    """no code is emitted straight after an unconditional transfer: between a Jump / Loop / Return emission and the next emission on
+    the same error-free path of the same compiler function there must be a label (a patched jump target, a drained break list, or
+    a recorded code position). Code emitted without one can never run -- for clean-up code (scope-end pops, handler removal) that
+    means the clean-up is silently skipped and the operand stack has two heights at the jump target"""
+    c = w.yarel
+    r = rep.rule('B8', 'clean-up code is emitted before, not after, an unconditional Jump/Loop/Return (nothing is emitted after one without a label in between)', floor=10)
+    may_emit = w.can_reach({'yarel::chunk::Chunk::write'})
+    LABELS = {P + 'patch_jump', COMPILER + 'patch_jump', COMPILER + 'pop_loop', P + 'patch_offset_at', COMPILER + 'push_loop',
+              P + 'finalise_compiler'}   # the implicit return that closes every body (B7) is dead after an explicit one by design
+    for f in sorted(c.fns.values(), key=lambda x: x.path):
+        if not f.file.endswith('compiler.rs'):
+            continue
+        evs = emit.emissions(w, f)
+        uncond = [(bi, k, o) for (bi, k, o, d) in evs if (k == 'jump' and o == 'Jump') or k in ('loop', 'return') or (k == 'byte' and o == 'Return')]
+        if not uncond:
+            continue
+        err = emit.error_blocks(f)
+        calls = dict(f.calls())
+        for n, (bi, k, o) in enumerate(sorted(uncond)):
+            # walk forward from the emission; stop a path at a label, an error report or a return; flag the first emitting call
+            bad = None
+            seen = set()
+            stack = [calls[bi].get('to')]
+            while stack and bad is None:
+                b = stack.pop()
+                if b is None or b in seen or b in err:
+                    continue
+                seen.add(b)
+                t = f.blocks[b]['t']
+                if t['t'] == 'call':
+                    nm = callee_name(t)
+                    if nm in LABELS:
+                        continue
+                    if strip_generics(nm or '') == 'std::vec::Vec::len':
+                        # `self.chunk().code.len()`: a code position is recorded -> backward-jump / handler label
+                        continue
+                    if b != bi and (nm in emit.EMITTERS or nm in may_emit or nm is None):
+                        bad = (b, nm)
+                        break
+                stack.extend(f.succs()[b])
+            r.check(bad is None, '%s / %s #%d' % (f.path.replace(P, ''), o or k, n),
+                    'code is emitted by %s right after the unconditional %s, with no jump target in between: it can never execute '
+                    '(scope-end pops / handler clean-up placed there are skipped)' % ((bad or ('', ''))[1], o or k), f.loc(calls[bi].get('sp')))
 
 
 def b7(rep, w):
